@@ -159,7 +159,7 @@ static void body(void) {
       AlgorithmType at = learner == 0 ? _PLS_ : learner == 1 ? _MLR_ : _LDA_;
       CLOCK_TICKS = 0; vs_begin(1, 0);
       if (!kfold) LeaveOneOut(&in, at, pred, NULL, (size_t)(pass ? NTG[cfg] : 1), NULL, 0);
-      else { uivector *g; NewUIVector(&g, (size_t)nobj); for (int i = 0; i < nobj; i++) g->data[i] = (size_t)(i % 3); KFoldCV(&in, g, at, pred, NULL, (size_t)(pass ? NTG[cfg] : 1), NULL, 0); DelUIVector(&g); }
+      else { uivector *g; NewUIVector(&g, (size_t)nobj); for (int i = 0; i < nobj; i++) g->data[i] = (size_t)(fam ? (i < 4 ? 0 : i < 7 ? 1 : 2) : i % 3);   /* data set 1: folds of unequal size 4/3/2 */ KFoldCV(&in, g, at, pred, NULL, (size_t)(pass ? NTG[cfg] : 1), NULL, 0); DelUIVector(&g); }
       vs_end();
       rr[pass] = take(pred); DelMatrix(&pred); DelMatrix(&x); DelMatrix(&y);
     }
